@@ -24,6 +24,18 @@ class Finding:
         return "%s/%s %s: %s" % (self.prop, self.cls, self.path, self.detail)
 
 
+# Verdicts that rest on the ABSENCE of an event (or on sums over all events) are only sound on a complete event log.  The supervisor
+# keeps at most a fixed number of records per run; when it had to drop records these classes are not judged for that run.
+NEEDS_COMPLETE_LOG = (("C18", ""), ("C12", "copied-"), ("C12", "size-"), ("C12", "no-return"), ("C12", "channel-not"), ("C12", "incomplete-"),
+                      ("C15", "always-"), ("C04", "silent-failure:fsync"))
+
+
+def drop_unsound_on_truncated_log(res, findings):
+    if not res.get("stats", {}).get("events_dropped"):
+        return findings
+    return [f for f in findings if not any(f.prop == p and f.cls.startswith(c) for p, c in NEEDS_COMPLETE_LOG)]
+
+
 def succeeded(res):
     o = res["outcome"]
     return o["kind"] == "exit" and o["code"] == 0
